@@ -35,6 +35,7 @@ PseudoOK(e) ==
    /\ ("prism_of" \in DOMAIN e => Euclidean2D(e.prism_of) /\ Connected(S) /\ IsCoverOf(S, Prism(e.prism_of)) /\ e.found)
    /\ \A k \in 1..Len(e.variants) : LET w == e.variants[k] IN
          /\ "panic" \notin DOMAIN w
+         /\ (w.how = "dual" => w.sym = Dual(S))                           \* the relative really is the dual (derived::dual)
          /\ w.found = e.found                                            \* independent of the numbering / dualisation
          /\ (e.found => w.sheets = e.cov.n \div e.oc.n)
 Next == /\ l <= Len(Rec)
